@@ -105,6 +105,9 @@ def symbols(t: T):
 def run(ctx) -> Report:
     rep = Report("C17")
     prog = ctx.prog
+    # the memo-key clause first: it needs no interpretation, and what it finds is reported even if a later clause cannot follow the code
+    from ..memokey import check_memo_keys, memo_rule  # noqa: F401
+    check_memo_keys(ctx, rep, "C17-key", ["ufl.algorithms.apply_restrictions"], min_sites=1)
     cls = prog.get_class(CLS)
     ctx.crosscheck_dispatch({"RestrictionPropagator"})
     tab = ctx.disp.mf_table(cls)
@@ -299,7 +302,6 @@ def run(ctx) -> Report:
         rep.violation("C17-policy", cls, "terminal = ...", "the default rule for terminals no longer raises: new terminal types would pass unrestricted")
     from ..memokey import check_memo_keys
 
-    check_memo_keys(ctx, rep, "C17-key", ["ufl.algorithms.apply_restrictions"], min_sites=1)
     rep.require_min("C17-value", 60)
     rep.require_min("C17-reject", 30)
     rep.require_min("C17-policy", 50)
